@@ -52,6 +52,21 @@ FLT_EDGE = [0x00000000, 0x80000000, 0x3f800000, 0xbf800000, 0x40200000, 0xc02000
             0x7f800000, 0xff800000, 0x4effffff, 0xcf000000, 0x4f7fffff, 0x5effffff, 0xdf000000, 0x5f7fffff, 0x4b800000, 0x42fe0000,
             0x43000000, 0xc3000000, 0xc3008000, 0x477fff00, 0x47800000]
 FLT_QUIRK = [0x4f000000, 0x4f800000, 0x5f000000, 0x5f800000]        # 2^31 2^32 2^63 2^64 as floats: the rounded integer maxima (UB in HDF5)
+# live handles to the one frame a line may go through (harness/drv_C15.cpp select_handle)
+HANDLES = ['c', 'k', 'i', 'g', 'f', 'x', 'y']
+
+
+def with_handles(lines, rnd, p=0.6):
+    """prefix the lines of a history with randomly chosen handles (writes / resizes through one, reads through another)"""
+    out = []
+    for l in lines:
+        if l.startswith(('new ', 'reopen ')) or l == 'new 0' or rnd.random() > p:
+            out.append(l)
+        else:
+            out.append('@%s %s' % (rnd.choice(HANDLES), l))
+    return out
+
+
 ROUTES = ['brace', 'assign', 'presized', 'reverse', 'rotate', 'swap', 'erase', 'insert', 'copy', 'move']
 
 
@@ -442,7 +457,7 @@ class C15(Prop):
         lines.append('reopen ' + rnd.choice(['ro', 'rw']))
         lines.append('schema')
         sh.dump(lines)
-        return Case(lines, tag)
+        return Case(with_handles(lines, rnd), tag)
 
     def generate(self, seed, tier, scale=1):
         rnd = random.Random(seed)
@@ -524,6 +539,21 @@ class C15(Prop):
                  'colnames 3 0 %d 1' % len(ns), 'colnames 1 %d' % (len(ns) + 5), 'colnames 2 1 1', 'reopen ro',
                  'colidxs 2 %s %s' % (hexs(ns[1]), hexs(ns[0])), 'colnames 2 1 0']
             cases.append(Case(L, 'vector-overloads'))
+        # several live handles to the one frame: a resize / write through one handle, every read through every other one
+        a, s = hexs('a'), hexs('s')
+        for act in HANDLES:
+            L = ['new 2 %s s: Int32 %s s: Double' % (a, s), 'rows 3']
+            L += ['@%s nrows' % h for h in HANDLES] + ['@%s rcol_i 0 Int32 1 0 0' % h for h in HANDLES]          # every handle has looked
+            L += ['@%s rows 6' % act, '@%s wcol_i 0 Int32 0 0 6 i32:1 i32:2 i32:3 i32:4 i32:5 i32:6' % act]
+            L += ['@%s nrows' % h for h in HANDLES] + ['@%s rcol_i 0 Int32 1 0 0' % h for h in HANDLES] + \
+                 ['@%s rcol_n %s Int32 1 2 0' % (h, a) for h in HANDLES] + ['@%s rrow 5' % h for h in HANDLES]
+            L += ['@%s rows 2' % act]
+            L += ['@%s nrows' % h for h in HANDLES] + ['@%s rcol_i 0 Int32 1 0 9' % h for h in HANDLES] + \
+                 ['@%s rcol_i 0 Int32 1 3 0' % h for h in HANDLES] + ['@%s rrow 2' % h for h in HANDLES] + ['@%s rcell_i 1 0' % h for h in HANDLES]
+            L += ['@%s wcell 1 1 d:4004000000000000' % act] + ['@%s rrow 1' % h for h in HANDLES] + ['@%s schema' % h for h in HANDLES]
+            L += ['reopen ro'] + ['@%s nrows' % h for h in HANDLES] + ['@%s rows 4' % act] + ['@%s nrows' % h for h in HANDLES]
+            L += ['reopen rw', '@%s rows 0' % act] + ['@%s nrows' % h for h in HANDLES] + ['@%s rcol_i 1 Double 1 0 0' % h for h in HANDLES]
+            cases.append(Case(L, 'handles'))
         # 2. schemas 1..8: random histories
         for i in range(1200 * mult):
             ncols = 1 + i % 8
@@ -588,7 +618,7 @@ class C15(Prop):
             L += ['reopen ro', 'rows 5', 'nrows', sh.w_row(0), sh.w_cells(0), sh.w_col(0), 'wcol_i 0 %s 0 0 0' % sh.elt_for_write(0, False),
                   'rows 0', 'rows 3', 'reopen rw']
             sh.dump(L)
-            cases.append(Case(L, 'malformed'))
+            cases.append(Case(with_handles(L, rnd, 0.4), 'malformed'))
         # rejected creates.  Since /repo a3cfdfc the front-end refuses an empty column list and a Nothing column before
         # anything is created; one create that fails AFTER the entity group exists is left (an empty column name,
         # DESIGN.md section 9 item 26 / C08), so a case ends at a rejected create.  The order of the checks is exercised:
@@ -624,6 +654,8 @@ class C15(Prop):
         for c in cases:
             for l in c.lines:
                 tk = l.split(' ')
+                if tk[0].startswith('@'):
+                    tk = tk[1:]
                 base = tk[0].split(':')[0]
                 cmd[base] = cmd.get(base, 0) + 1
                 if base in ('wcol_n', 'wcol_i'):
@@ -641,6 +673,14 @@ class C15(Prop):
         ctx['ev']['writeCells_construction_routes'] = routes
         ctx['ev']['cell_constructors'] = ctors
         ctx['ev']['cell_copy_move_assign_on_read'] = cmd.get('rcells', 0)
+        hs = {}
+        for c in cases:
+            for l in c.lines:
+                h = l.split(' ')[0][1:] if l.startswith('@') else 'c (default)'
+                hs[h] = hs.get(h, 0) + 1
+        ctx['ev']['handle_routes'] = {'legend': {'c': 'the handle createDataFrame returned / first fetched after reopen', 'k': 'kept second handle by name',
+                                                 'i': 'kept handle by id', 'g': 'kept handle through a Group', 'f': 'fresh handle by name',
+                                                 'x': 'fresh handle by index', 'y': 'fresh handle through the Group'}, 'lines': hs}
         ctx['ev']['entry_points_not_covered'] = ['readColumn/writeColumn<bool>: std::vector<bool> does not compile with Hydra',
                                                  'createDataFrame with an explicit Compression argument (pure forward; compression is not observable through the API)',
                                                  'DataFrameDimension::ticks<T> (covered by C13)']
@@ -649,7 +689,8 @@ class C15(Prop):
     # ---- reporting -------------------------------------------------------------------------------
     def signature(self, case, impl, spec):
         k = next((i for i, (a, b) in enumerate(zip(impl, spec)) if b != 'ANY' and not self.compare(a, b)), 0)
-        cmd = case.lines[k].split(' ')[0]
+        tk = case.lines[k].split(' ')
+        cmd = tk[1] if tk[0].startswith('@') and len(tk) > 1 else tk[0]
         a = impl[k]
         if a.startswith('CRASH'):
             path = {'rrow': 'readRow', 'rcell_i': 'readCell', 'rcell_n': 'readCell', 'rcells': 'readCells'}.get(cmd, 'readColumn' if cmd.startswith('rcol') else cmd)
